@@ -61,6 +61,7 @@ def generate(rng, tier):
         for pos in range(4):
             for inner in (False, True):
                 out.append({'kind': 'flaky', 'shape': [kind, pos, inner]})
+    out += [{'kind': 'subclass', 'i': i} for i in range(len(SUBCLASS_PATHS))]
     for _ in range(n // 10):
         cells, path = c11.broadcast(rng)
         if any(p[0] == 'X' for p in path):
@@ -150,6 +151,46 @@ def run_flaky(case):
     return out
 
 
+SUBCLASS_PATHS = ['*', '**', 'rows.*', 'rows.*.k', '**.k', 'rows.**']
+
+
+def _subclass_target(sub):
+    """the same data with the list / tuple / set containers replaced by instances of plain subclasses (which have a __dict__)"""
+    class Rows(list):
+        pass
+
+    class Pair(tuple):
+        pass
+
+    class Tags(frozenset):
+        pass
+    L, P, F = (Rows, Pair, Tags) if sub else (list, tuple, frozenset)
+    return {'rows': L([{'k': 1, 'p': P((7, 8))}, {'k': 2, 'p': P(())}, L([{'k': 3}])]), 'tags': F(['x'])}
+
+
+def run_subclass(case):
+    """F45: an instance of a list / tuple / set subclass is a sequence / set like its base: * and ** list its items"""
+    import glom
+    spec = SUBCLASS_PATHS[case['i']]
+
+    def plain(x):
+        if isinstance(x, (list, tuple)):
+            return [plain(v) for v in x]
+        if isinstance(x, (set, frozenset)):
+            return sorted(plain(v) for v in x)
+        if isinstance(x, dict):
+            return {k: plain(v) for k, v in x.items()}
+        return x
+    try:
+        got = plain(glom.glom(_subclass_target(True), spec))
+    except Exception as e:
+        got = 'raise %s' % type(e).__name__
+    want = plain(glom.glom(_subclass_target(False), spec))
+    if got != want:
+        return {'problems': ['%r over containers that are plain subclasses of list / tuple / frozenset: %r, over the base types %r' % (spec, got, want)]}
+    return {'problems': []}
+
+
 def run_broadcast(case):
     """Assign / Delete through one wildcard per level act on every match"""
     import copy
@@ -233,6 +274,8 @@ def run_impl(case):
     import glom
     if case.get('kind') == 'flaky':
         return run_flaky(case)
+    if case.get('kind') == 'subclass':
+        return run_subclass(case)
     if case.get('kind') == 'broadcast':
         return run_broadcast(case)
     hr = HeapRealiser(case['cells'], falsy_factory)
